@@ -192,6 +192,26 @@ def ed25519(ctx, world, ev):
                 cf = gm.func_by_qual(world, t.f[3:])
                 if same and cf is not None and gm.oncurve_test_ok(world, ev, cf)[0]:
                     found = True
+        if not found:
+            # x*x == xx (mod Q) where xx = (y^2 - 1)/(d y^2 + 1) is the square returned by the verified root helper:
+            # equivalent to the curve equation because d y^2 + 1 is a unit for every y (C12 P4)
+            xr = x.args[1] if is_app(x, "Sub") and x.args[0] == Const(Q) else x
+            rc_ = gm.root_call(world, xr)
+            if rc_ is not None and rc_[2] == 0 and gm.sqrt_helper_ok(world, ev, rc_[0], 0)[0]:
+                xx_ = mk_app("proj", (xr.args[0], Const(1)))
+                for (t, pol) in conds:
+                    if is_app(t, "Eq", "NotEq") and Const(0) in t.args and (pol == (t.f == "Eq")):
+                        other = t.args[0] if t.args[1] == Const(0) else t.args[1]
+                        if is_app(other, "Mod") and other.args[1] == Const(Q):
+                            at2 = dict(atoms)
+                            at2["xx__"] = xx_
+                            try:
+                                pe = term_poly(other.args[0], Q, at2)
+                                pxx = Poly.var(Q, "xx__")
+                                if (pe - (px * px - pxx)).is_zero() or (pe + (px * px - pxx)).is_zero():
+                                    found = True
+                            except AnalysisError:
+                                pass
         ctx.ob("D3-curve", inst, found, "on-curve guard is the curve equation -x^2 + y^2 = 1 + d x^2 y^2 on the decoded (x, y)" if found else
                "no guard on the accepting path is the curve equation of the decoded coordinates", fsite)
         # ---- D3b L-torsion through the complete ladder on this point
